@@ -4,6 +4,7 @@ import (
 	"crypto/aes"
 	"crypto/cipher"
 	"crypto/rand"
+	"errors"
 	"io"
 	"os"
 
@@ -24,6 +25,10 @@ const (
 
 var (
 	masterKeyVarName = "LIFTBRIDGE_ENCRYPTION_KEY"
+
+	// errMalformedData is returned by Read when the stored form is too short
+	// to hold the parts announced by its layout (truncated or corrupted data).
+	errMalformedData = errors.New("encryption: malformed encrypted data")
 )
 
 // LocalEncryptionHandler provides functionalities to load secret key
@@ -123,6 +128,9 @@ func (handler *LocalEncryptionHandler) decryptData(dek []byte, encryptedData []b
 
 	// get nonce
 	nonceSize := gcm.NonceSize()
+	if len(encryptedData) < nonceSize {
+		return nil, errMalformedData
+	}
 	nonce, ciphertext := encryptedData[:nonceSize], encryptedData[nonceSize:]
 
 	// decrypt the data
@@ -197,8 +205,14 @@ func (handler *LocalEncryptionHandler) Seal(data []byte) ([]byte, error) {
 
 func (handler *LocalEncryptionHandler) Read(encryptedData []byte) ([]byte, error) {
 	// Decompose wrapped key and cypher text
+	if len(encryptedData) == 0 {
+		return nil, errMalformedData
+	}
 	keySize := int(encryptedData[0])
 	keyEndPos := keySize + 1
+	if keyEndPos > len(encryptedData) {
+		return nil, errMalformedData
+	}
 	wrappedDEK := encryptedData[1:keyEndPos]
 
 	ciphertext := encryptedData[keyEndPos:]
